@@ -102,7 +102,9 @@ def candmap_cases(ctx, n_cases):
 def relations(ctx, per_spec):
     rng = ctx.rng
     for spec in pool_specs():
-        for _ in range(per_spec):
+        for k_rep in range(per_spec):
+            # the first repetition of every spec is the state-carrying scenario: ONE object, a batch of two, a warm pool
+            forced = k_rep == 0
             nrs = np.random.RandomState(rng.randrange(2**31 - 1))
             n = rng.randint(6, 13)
             flavour = rng.choice(["random", "random", "grid", "duplicates"])
@@ -110,17 +112,21 @@ def relations(ctx, per_spec):
             # fallback branches there, where candidate bookkeeping differs between the addressings
             r0 = rng.random()
             n_lab = 0 if r0 < 0.2 else (1 if r0 < 0.3 else rng.randint(2, n - 3))
+            if forced and n_lab < 2:
+                n_lab = 2
             ctx.count("cold_start" if n_lab == 0 else ("single_label" if n_lab == 1 else "warm"))
             data = make_data(nrs, n, spec.kind, flavour, n_labeled=n_lab, classes=spec.classes or (0, 1, 2))
             cold = "/cold-start" if n_lab == 0 else ""   # precondition class of a finding
             unl = np.flatnonzero(np.isnan(data["y"]))
             seed = rng.randrange(10**6)
             b = rng.choice([1, 1, 2])
+            if forced:
+                b = 2
             case = dict(spec=spec.name, n=n, flavour=flavour, b=b, seed=seed, X=data["X"], y=data["y"], y_true=data["y_true"])
             # --- (b) representation equivalence ----------------------------------------------
             # half of the time ONE strategy object answers all addressings of this pool (state kept between calls must
             # not make the addressings disagree); otherwise a fresh object per call
-            shared = spec.make(seed) if rng.random() < 0.5 else None
+            shared = spec.make(seed) if (rng.random() < 0.5 or forced) else None
             case["one_object"] = shared is not None
             ctx.count("repr_one_object" if shared is not None else "repr_fresh_objects")
             qn, Un, e1 = run(spec, data, None, b, seed, qs=shared)
